@@ -1,0 +1,16 @@
+//go:build verif
+
+// Contracts for the acv verifier (/verif). Comment-only file: no executable code.
+
+package api
+
+// A destroyed key never comes back; nothing but a deactivated/compromised/pre-active key may be destroyed.
+//@ func KeyStateTransitionValid(oldState KeyState, newState KeyState) (ok bool)
+//@   props C06
+//@   safety
+//@   pure
+//@   ensures destroyed-is-final: oldState == KeyDestroyed ==> !ok
+//@   ensures no-self-loop: oldState == newState ==> !ok
+//@   ensures destroy-from: ok && newState == KeyDestroyed ==> oldState == KeyPreActive || oldState == KeyDeactivated || oldState == KeyCompromised
+//@   ensures active-not-destroyable: (oldState == KeyActive || oldState == KeySuspended) && newState == KeyDestroyed ==> !ok
+//@   modifies nothing
